@@ -13,6 +13,9 @@ module adds, on every run:
     row's side (the ties of < against <= as they occur between arbitrary doubles);
   * rows with such coordinates, including rows with infinite sides ([-inf, x], [x, inf],
     [-inf, inf], [inf, inf]) beside NaN rows;
+  * box sets whose total extent on some axis has width 0 at |coordinate| >= 2^53 (all points on
+    one meridian at x = 1e16, ...): the index must build and answer (the constructor raised
+    ZeroDivisionError until /repo 7cf01a0);
   * indexes with more rows than the default page size (511, 512, 513, 1025, 1100 rows) asked
     unbounded and off-grid queries;
   * the query argument in the forms a caller passes it: tuple / list of Python floats, numpy
@@ -292,6 +295,24 @@ def gen(rep, tier):
         ps = rng.choice(base + extra)
         yield (d, rows, ps, rng.choice([1, 2, 10, 31]), float_queries(rng, d, rows, pool, 24),
                'float:offgrid')
+    # (3b) box sets whose total extent on an axis has width 0 at a magnitude where x + 1 == x
+    for i in range(40 if quick else 2000):
+        d = rng.choice([1, 2, 2, 3])
+        n = rng.choice([1, 1, 2, 3, 5, 9])
+        flat = rng.sample(range(d), rng.randint(1, d))           # the axes without extent
+        big = rng.choice([2.0 ** 53, -2.0 ** 53, 2.0 ** 53 + 2, 1e16, -1e16, 1e22, 1e300, -1e300,
+                          FMAX, -FMAX])
+        pool = local_pool(rng)
+        rows = float_rows(rng, d, n, pool, inf_rows=False)
+        for r in rows:
+            if not U.isnan_row(r):
+                for k in flat:
+                    r[k] = r[d + k] = big
+        if all(U.isnan_row(r) for r in rows):
+            rows[0] = [big] * (2 * d)
+        ps = rng.choice([1, 2, n, n + 1, 512])
+        yield (d, rows, ps, rng.choice([1, 2, 10, 31]),
+               float_queries(rng, d, rows, pool + [big, up(big), down(big)], 16), 'float:flat-extent')
     # (4) more rows than the default page size
     for n in ([511, 513, 1030] if quick else [511, 512, 513, 1024, 1025, 1100, 2049]):
         d = 2
@@ -315,7 +336,8 @@ def absorbed_extent(rows, d):
     """the boxes have total extent of width 0 on some axis at a magnitude where x + 1 == x
     (|x| >= 2^53): rtree._distances_from_bounds widens the range by + 1, which is absorbed, and
     _data2coord divides by the zero width -> ZeroDivisionError in the constructor (the same
-    mechanism is modelled by C08, Model/FloatData2Coord.v, and counted by C13)"""
+    mechanism is modelled by C08, Model/FloatData2Coord.v) -- repaired in /repo (7cf01a0);
+    used to count the class"""
     tb = U.brute_total(rows, d)
     return any(tb[k] == tb[d + k] and tb[k] + 1 == tb[k] and abs(tb[k]) != INF for k in range(d))
 
@@ -361,9 +383,10 @@ def classify(rep, b):
         rep.count('build:row-with-infinite-side')
 
 
-def run_float(rep, tier, H):
+def run_float(rep, tier, H, defer=False):
     """the builds of gen() through the public API against the brute-force oracle and (on ranks)
-    the model in the kernel.  Returns False when a violation was reported."""
+    the model in the kernel.  Returns False when a violation was reported; with defer=True the
+    kernel part is left running and a function that joins it is returned instead of True."""
     FB = fbuild_cls(H)
     rng = rep.rng
     group = []
@@ -379,13 +402,10 @@ def run_float(rep, tier, H):
             rep.evaluations += len(queries)
             rep.count('build:' + tag)
             rep.count('query-form:' + FORMS[b.form][0])
-            if b.error and b.error[0] == 'ZeroDivisionError' and absorbed_extent(rows, d):
-                # FINDING on the code as it is (reported to the orchestrator, counted on every
-                # run, not raised as a violation by decision): the index cannot be built
-                rep.count('finding:index-not-buildable:zero-extent-beyond-2^53')
-                rep.extra.setdefault('finding_index_not_buildable',
-                                     C.jsonable({'d': d, 'rows': rows[:4], 'error': b.error}))
-                continue
+            if absorbed_extent(rows, d):
+                # the +1 widening of a zero extent is absorbed at this magnitude (repaired in
+                # /repo 7cf01a0: the constructor raised ZeroDivisionError): an ordinary class now
+                rep.count('build:zero-extent-beyond-2^53')
             if b.error:
                 rep.violation(f'raises:{b.error[0]}', f'index build or query raised {b.error}',
                               {**b.meta(), 'error': b.error})
@@ -413,22 +433,34 @@ def run_float(rep, tier, H):
                              [group[i][2] for i in idx], shard=shard, timeout=1500)
         return [idx[j] for j in r]
     import concurrent.futures as cf
-    with cf.ThreadPoolExecutor(max_workers=2) as ex:
-        f1 = ex.submit(mism, big, 1)
-        f2 = ex.submit(mism, small, max(20, min(200, len(small) // (2 * C.NCPU) + 1)))
-        bad = sorted(f1.result() + f2.result())
-    seen = set()
-    for i in bad:
-        if len(seen) > 3:
-            break
-        light = group[i][0]
-        b = FB(*light[:6])
-        b.form = light[6]
-        sig, what, rp = diagnose(H, b.run())
-        if sig not in seen:
-            seen.add(sig)
-            rep.violation(sig, what, rp)
-    return not bad
+    ex = cf.ThreadPoolExecutor(max_workers=2)
+    f1 = ex.submit(mism, big, 1)
+    f2 = ex.submit(mism, small, max(20, min(200, len(small) // (2 * C.NCPU) + 1)))
+
+    def finish():
+        """join the kernel evaluations (they run in coqc processes beside whatever the caller does
+        meanwhile) and report the disagreements; False when there is one"""
+        try:
+            bad = sorted(f1.result() + f2.result())
+        finally:
+            ex.shutdown(wait=True)
+        seen = set()
+        for i in bad:
+            if len(seen) > 3:
+                break
+            light = group[i][0]
+            b = FB(*light[:6])
+            b.form = light[6]
+            with warnings.catch_warnings():
+                warnings.simplefilter('ignore')
+                sig, what, rp = diagnose(H, b.run())
+            if sig not in seen:
+                seen.add(sig)
+                rep.violation(sig, what, rp)
+        return not bad
+    if defer:
+        return finish
+    return finish()
 
 
 def replay(rep, rp, H, rows, queries):
